@@ -2,7 +2,10 @@ package main
 
 // Checks over the hand-written layer: every function whose contract names the property.
 
-import "fmt"
+import (
+	"fmt"
+	"go/ast"
+)
 
 func handPatterns() []string {
 	return []string{"./runtime", "./support/timepb", "./anyutil", "./generator", "./cmd/protoc-gen-go-pulsar", "./rapidproto", "./features/fastreflection",
@@ -40,8 +43,123 @@ func init() {
 		"protobuf-go is not re-verified: proto.MarshalOptions.Marshal, the registries, dynamicpb and anypb.UnmarshalTo have trusted contracts (listed); Unpack(Pack(m)) == m and the agreement of the two resolver paths rest on them",
 		"a nil *anypb.Any is outside the input domain of Unpack (precondition)",
 	})
+	checks["C18"] = handCheck("C18", []string{
+		"rapid: a value drawn from XRange(lo, hi) lies in [lo, hi]; rapid.String() is valid UTF-8; a failed assert aborts the run (trusted)",
+		"'accepted by the reference marshaller / round-trips' is protobuf-go's behaviour on valid values; Any: typeURL is the resolver's own answer and value = Marshal(New()) by construction of genAny (not re-verified)",
+		"not covered: genAny with a nil field descriptor (top-level Any message), the FieldMaps and DisallowNilMessages/NoEmptyLists options beyond the recursion measure",
+	})
 	checks["C17"] = handCheck("C17", []string{
 		"machine arithmetic is modelled exactly as mathematical integers with explicit wrap-around (mod 2^64 / 2^32)",
 		"AddStd: agreement with Add is not proved (time.Time arithmetic is outside the supported subset); Add is proved against the mathematical instant t+d directly",
 	})
 }
+
+// C18: two ground obligations on the structure of the real function bodies (ghost provenance, decided on the AST)
+func init() {
+	unitPosts["rapidproto.GeneratorOptions.genScalarFieldValue"] = func(c *Ctx, u *Unit) {
+		// every value handed to ValueOfEnum is the Number() of one of the enum's declared values
+		n, ok := 0, true
+		ast.Inspect(c.fdecl.Body, func(nd ast.Node) bool {
+			call, isCall := nd.(*ast.CallExpr)
+			if !isCall {
+				return true
+			}
+			if sel, isSel := call.Fun.(*ast.SelectorExpr); isSel && sel.Sel.Name == "ValueOfEnum" && len(call.Args) == 1 {
+				n++
+				fromNumber := false
+				ast.Inspect(call.Args[0], func(a ast.Node) bool {
+					if s2, ok := a.(*ast.SelectorExpr); ok && s2.Sel.Name == "Number" {
+						fromNumber = true
+					}
+					return true
+				})
+				if !fromNumber {
+					ok = false
+				}
+			}
+			return true
+		})
+		u.Grounds = append(u.Grounds, Ground{Name: u.Name + "/enum-value-is-a-declared-number", OK: ok && n > 0,
+			Text: "the number stored into an enum field is EnumValueDescriptor.Number() of a declared value (not the index that was drawn)", Detail: fmt.Sprintf("%d ValueOfEnum call(s)", n),
+			Tag: map[string]string{"kind": "overlay-test", "pkg": "rapidproto", "src": rapidEnumReplay}})
+	}
+	unitPosts["rapidproto.GeneratorOptions.genFieldMask"] = func(c *Ctx, u *Unit) {
+		// the list that receives the drawn paths is the message's own field: obtained through Mutable, or stored back with Set
+		stored := false
+		ast.Inspect(c.fdecl.Body, func(nd ast.Node) bool {
+			call, isCall := nd.(*ast.CallExpr)
+			if !isCall {
+				return true
+			}
+			if sel, isSel := call.Fun.(*ast.SelectorExpr); isSel && (sel.Sel.Name == "Set" || sel.Sel.Name == "Mutable") {
+				if id, ok := sel.X.(*ast.Ident); ok && id.Name == "msg" && len(call.Args) >= 1 {
+					if a, ok := call.Args[0].(*ast.Ident); ok && a.Name == "pathsField" {
+						stored = true
+					}
+				}
+			}
+			return true
+		})
+		u.Grounds = append(u.Grounds, Ground{Name: u.Name + "/drawn-paths-reach-the-message", OK: stored,
+			Text: "the FieldMask message holds the drawn paths: the filled list is the field's own list (Mutable) or is stored with Set",
+			Tag: map[string]string{"kind": "overlay-test", "pkg": "rapidproto", "src": rapidMaskReplay}})
+	}
+}
+
+const rapidEnumReplay = `package rapidproto
+
+import (
+	"fmt"
+	"testing"
+
+	"github.com/cosmos/cosmos-proto/internal/testprotos/test3"
+	"pgregory.net/rapid"
+)
+
+func TestGovcReplay(t *testing.T) {
+	declared := map[int32]bool{}
+	vals := (&test3.TestAllTypes{}).ProtoReflect().Descriptor().Fields().ByName("singular_nested_enum").Enum().Values()
+	for i := 0; i < vals.Len(); i++ {
+		declared[int32(vals.Get(i).Number())] = true
+	}
+	gen := MessageGenerator(&test3.TestAllTypes{}, GeneratorOptions{})
+	seenNeg := false
+	for i := 0; i < 400; i++ {
+		m := gen.Example(i)
+		n := int32(m.SingularNestedEnum)
+		if n == -1 {
+			seenNeg = true
+		}
+		if !declared[n] {
+			fmt.Printf("GOVC-REPLAY: VIOLATED enum field drawn as %d, which is not a declared number of NestedEnum (FOO=0 BAR=1 BAZ=2 NEG=-1)\n", n)
+			t.FailNow()
+		}
+	}
+	if !seenNeg {
+		fmt.Println("GOVC-REPLAY: VIOLATED declared value NEG=-1 is never drawn in 400 examples")
+		t.FailNow()
+	}
+	_ = rapid.Bool
+}
+`
+
+const rapidMaskReplay = `package rapidproto
+
+import (
+	"fmt"
+	"testing"
+
+	"google.golang.org/protobuf/types/known/fieldmaskpb"
+)
+
+func TestGovcReplay(t *testing.T) {
+	gen := MessageGenerator(&fieldmaskpb.FieldMask{}, GeneratorOptions{})
+	for i := 0; i < 20; i++ {
+		m := gen.Example(i)
+		if len(m.Paths) == 0 {
+			fmt.Println("GOVC-REPLAY: VIOLATED FieldMask generated with no paths although 1..5 paths are drawn for it")
+			t.FailNow()
+		}
+	}
+}
+`
